@@ -1,7 +1,15 @@
 // Generates the module list with absolute paths derived from this crate's location, so
 // that a copy of /verif (e.g. a snapshot) includes its own harness sources.
 fn main() {
-    let root = std::path::Path::new(env!("CARGO_MANIFEST_DIR")).parent().unwrap().join("harness/src");
+    // Read at run time, not baked into the compiled build script: cargo's fingerprints do
+    // not depend on where the workspace lives, so a build script compiled for another copy
+    // of /verif can be reused here. VERIF_SLICE_ROOT (set by the harness to this crate's
+    // directory) forces a re-run, and with it a rebuild of the crate, whenever the cached
+    // artifacts were produced for a different copy — cargo-miri records the working
+    // directory of the build in its run info and fails if that directory is gone.
+    println!("cargo:rerun-if-env-changed=VERIF_SLICE_ROOT");
+    let manifest_dir = std::env::var("CARGO_MANIFEST_DIR").expect("CARGO_MANIFEST_DIR");
+    let root = std::path::Path::new(&manifest_dir).parent().unwrap().join("harness/src");
     let r = root.display();
     let mods = format!(
         r#"#[path = "{r}/exec.rs"]
